@@ -456,6 +456,7 @@ def replay_split(inputs):
                 bad.append('Jumps.split length')
             if sum(j.n_jumps for j in jp) > total:
                 bad.append(f'jump counts of parts add up to {sum(j.n_jumps for j in jp)} > {total}')
+            bad.extend(_part_counts(jumps, jp))
         except ValueError as e:
             if 'No jumps' not in str(e):
                 raise
@@ -478,7 +479,27 @@ def replay_split(inputs):
             bad.append(f'parts of Jumps(minimal_residence={mres}) are analysed with another residence')
         if sum(j.n_jumps for j in jp) > jm.n_jumps:
             bad.append(f'minimal_residence={mres}: jump counts of parts add up to {sum(j.n_jumps for j in jp)} > {jm.n_jumps}')
+        bad.extend(f'minimal_residence={mres}: ' + b_ for b_ in _part_counts(jm, jp))
     return {'reproduced': bool(bad), 'detail': f'seed={inputs["seed"]} n_parts={n} T={T}: ' + '; '.join(bad[:4])}
+
+
+def _part_counts(whole, parts):
+    """Per-kind counts (per pair of site labels, per pair of sites): no part reports more than the whole, and the parts together do not either."""
+    import numpy as np
+    bad = []
+    wc = whole.counter()
+    pcs = [p.counter() for p in parts]
+    for key in set(wc) | {k for pc in pcs for k in pc}:
+        vals = [int(pc.get(key, 0)) for pc in pcs]
+        if max(vals) > int(wc.get(key, 0)) or sum(vals) > int(wc.get(key, 0)):
+            bad.append(f'jumps {key[0]}->{key[1]}: parts report {vals}, the whole run {int(wc.get(key, 0))}')
+    wm = np.asarray(whole.matrix())
+    pm = [np.asarray(p.matrix()) for p in parts]
+    if any(m.shape != wm.shape for m in pm) or (sum(pm) > wm).any():
+        bad.append('site-to-site jump matrices of the parts add up to more than the matrix of the whole run')
+    if sum(wc.values()) != whole.n_jumps:
+        bad.append(f'per-label counts of the whole run add up to {sum(wc.values())}, it has {whole.n_jumps} jumps')
+    return bad[:3]
 
 
 def bounded_split(tier, seed):
